@@ -46,7 +46,9 @@ def generate(ctx):
             for lvl in range(rng.choice([1, 2, 3])):
                 node = {"t": "dir", "entries": [[hx(b"l%d" % lvl), node]]}
             spec["entries"].append([hx(b"chain%d" % k), node])
-        cases.append({"tree": spec, "slashes": rng.choice([0, 0, 1, 2, 3]), "relative": rng.random() < 0.3, "listing_seed": rng.randrange(2**31), "git": i % 3 == 0})
+        cases.append({"tree": spec, "slashes": rng.choice([0, 0, 1, 2, 3]), "relative": rng.random() < 0.3, "listing_seed": rng.randrange(2**31), "git": i % 3 == 0,
+                      # the name of the tree itself means nothing to the library or the command line
+                      "top": rng.choice(["top"] * 6 + ["~", "~root", "$HOME", "top dir", "*", "#x", "a;b", "%s", "{0}"])})
     # fixed shapes, in every run: a directory named like the root nested below it, holding an empty
     # directory, next to a non-empty directory of the same relative name one level up; read through
     # every spelling of the root
@@ -56,6 +58,9 @@ def generate(ctx):
     for rel in (True, False):
         for sl in (0, 1, 2):
             cases.append({"tree": selfname, "slashes": sl, "relative": rel, "listing_seed": rng.randrange(2**31), "git": sl == 0})
+    # ... and under names a shell (not the library, not the command) would expand
+    for top, sl in (("~", 0), ("~", 1), ("~root", 0), ("$HOME", 0), ("*", 2)):
+        cases.append({"tree": selfname, "slashes": sl, "relative": True, "listing_seed": rng.randrange(2**31), "git": False, "top": top})
     return cases
 
 
@@ -105,7 +110,7 @@ def check_cases(ctx, cases):
         for p, n in fs.walk(spec):
             ctx.count("node=" + n["t"])
         lrng = random.Random(case["listing_seed"])
-        with fs.scratch_tree(spec, "c06") as root:
+        with fs.scratch_tree(spec, "c06", top=case.get("top", "top").encode()) as root:
             spelled = root + b"/" * case["slashes"]
             cwd = os.getcwd()
             try:
